@@ -8,6 +8,7 @@
   hyperlinks (resolved through the relationships part) and the defined names.
 -/
 import Umya.Spec.XmlLex
+import Umya.Spec.SharedFormula
 namespace Umya.Spec.Sml
 open Umya.Spec.Xml
 
@@ -93,9 +94,13 @@ structure CellV where
   value : Text
   formula : Option Text
   style : Nat
+  shared : Option Nat := none      -- `si` of an `f t="shared"`
+  sharedChild : Bool := false      -- a later `f` of an `si` already seen (set by `expandShared`)
   deriving Repr, Inhabited
 
-def natOf (t : Text) : Option Nat := (str t).toNat?
+/-- an unsigned decimal number (xsd:unsignedInt lexical form without sign) -/
+def natOf (t : Text) : Option Nat :=
+  if t ≠ [] ∧ t.all Char.isDigit then some (t.foldl (fun a c => 10 * a + (c.toNat - 48)) 0) else none
 
 /-- §18.3.1.4 `c`: decode one cell given the shared-string table -/
 def decodeCell (sst : List Text) (c : Node) : CellV × List String :=
@@ -103,10 +108,9 @@ def decodeCell (sst : List Text) (c : Node) : CellV × List String :=
   let t := str ((c.attr? "t".toList).getD "n".toList)
   let style := ((c.attr? "s".toList).bind natOf).getD 0
   let v := (c.kid? "v").map (·.ownText)
-  -- a shared-formula child (`<f t="shared" si=…/>` without text) refers to its master's text;
-  -- it is reported as such (marker) — the expansion rule belongs to the shared-formula decoder
-  let f := (c.kid? "f").map (fun fe =>
-    if fe.attr? "t".toList = some "shared".toList ∧ fe.ownText.isEmpty then (Char.ofNat 1 :: "shared".toList) else fe.ownText)
+  let f := (c.kid? "f").map (·.ownText)
+  let shared := (c.kid? "f").bind fun fe =>
+    if fe.attr? "t".toList = some "shared".toList then (fe.attr? "si".toList).bind natOf else none
   let (kind, value, errs) : String × Text × List String :=
     match t with
     | "s" =>
@@ -117,11 +121,13 @@ def decodeCell (sst : List Text) (c : Node) : CellV × List String :=
        | none => ("", [], if v.isSome then [s!"cell {str ref}: t=s without a numeric v"] else []))
     | "inlineStr" => ("s", ((c.kid? "is").map rstText).getD [], [])
     | "str" => (if v.isSome then "s" else "", v.getD [], [])
-    | "b" => (if v.isSome then "b" else "", (if v = some ['1'] then "TRUE".toList else if v = some ['0'] then "FALSE".toList else v.getD []), [])
+    | "b" => (if v.isSome then "b" else "",
+        (if v = some ['1'] ∨ v = some "true".toList then "TRUE".toList
+         else if v = some ['0'] ∨ v = some "false".toList then "FALSE".toList else v.getD []), [])
     | "e" => (if v.isSome then "e" else "", v.getD [], [])
     | "n" => (if v.isSome then "n" else "", v.getD [], [])
     | other => ("", [], [s!"cell {str ref}: unknown cell type {other}"])
-  ({ ref := ref, kind := kind, value := value, formula := f, style := style }, errs)
+  ({ ref := ref, kind := kind, value := value, formula := f, style := style, shared := shared }, errs)
 
 /-! ## A1 references (for ordering checks) -/
 
@@ -152,12 +158,80 @@ def nonDecreasing (l : List Nat) : Bool :=
   | [] => true
   | x :: xs => (xs.foldl (fun (acc : Bool × Nat) y => (acc.1 && acc.2 ≤ y, y)) (true, x)).1
 
+/-! ## positions of cells that carry no `r` (§18.3.1.73 / §18.3.1.4: both `r` are optional):
+     a row without `r` is the row after the previous one, a cell without `r` the column after the
+     previous cell of its row (the first one column A) -/
+
+def colLetters (n : Nat) : Text := Umya.Coord.indexToAlpha n
+
+def refText (col row : Nat) : Text := colLetters col ++ (toString row).toList
+
+/-- fill in missing cell references of one row; `prev` = column of the previous cell -/
+def fillRefs (rn : Nat) : Nat → List CellV → List CellV
+  | _, [] => []
+  | prev, c :: rest =>
+    if c.ref.isEmpty then { c with ref := refText (prev + 1) rn } :: fillRefs rn (prev + 1) rest
+    else c :: fillRefs rn (colOf c.ref) rest
+
+/-! ## shared formulas (§18.3.1.40): the first `f t="shared"` of an `si` in document order is the
+     master and carries the text; a later `f` of the same `si` without text of its own stands for
+     the master's formula translated by the distance between the two cells -/
+
+structure Master where
+  si : Nat
+  col : Nat
+  row : Nat
+  text : Text
+
+def expandShared : List Master → List CellV → List CellV
+  | _, [] => []
+  | ms, c :: rest =>
+    match c.shared with
+    | none => c :: expandShared ms rest
+    | some si =>
+      match ms.find? (·.si = si) with
+      | none =>
+        -- the master: its own text
+        c :: expandShared (⟨si, colOf c.ref, rowOf c.ref, c.formula.getD []⟩ :: ms) rest
+      | some m =>
+        if (c.formula.getD []).isEmpty then
+          let dc : Int := (colOf c.ref : Int) - m.col
+          let dr : Int := (rowOf c.ref : Int) - m.row
+          { c with formula := some (SharedF.translateText m.text dc dr), sharedChild := true } :: expandShared ms rest
+        else { c with sharedChild := true } :: expandShared ms rest
+
 /-! ## one worksheet -/
 
 structure Link where
   ref : Text
   external : Bool
   target : Text
+  location : Option Text := none     -- `location` when the link also has a relationship
+  tooltip : Option Text := none
+  display : Option Text := none
+  deriving Repr, Inhabited
+
+/-- one `<col>` element -/
+structure ColV where
+  min : Nat
+  max : Nat
+  width : Option Text
+  hidden : Bool
+  style : Nat
+  deriving Repr, Inhabited
+
+structure RowV where
+  num : Nat
+  height : Option Text
+  hidden : Bool
+  style : Option Nat          -- `s`, meaningful when `customFormat` is set
+  deriving Repr, Inhabited
+
+structure TableV where
+  name : Text
+  displayName : Text
+  ref : Text
+  columns : List Text
   deriving Repr, Inhabited
 
 structure SheetV where
@@ -166,47 +240,90 @@ structure SheetV where
   cells : List CellV
   merges : List Text
   links : List Link
+  cols : List ColV := []
+  rows : List RowV := []
+  tables : List TableV := []
+  noR : Bool := false            -- some row or cell carries no `r` (positions are implied)
   deriving Repr, Inhabited
 
-def decodeSheet (p : Package) (path : String) (sst : List Text) (nXf nDxf : Nat) : (List CellV × List Text × List Link) × List String :=
+def boolAttr (n : Node) (name : String) : Bool :=
+  match n.attr? name.toList with
+  | some v => v = ['1'] ∨ v = "true".toList
+  | none => false
+
+/-- row numbers: explicit `r`, else the previous row + 1 -/
+def rowNumbers : Nat → List Node → List Nat
+  | _, [] => []
+  | prev, r :: rest =>
+    let n := ((r.attr? "r".toList).bind natOf).getD (prev + 1)
+    n :: rowNumbers n rest
+
+structure SheetBody where
+  cells : List CellV := []
+  merges : List Text := []
+  links : List Link := []
+  cols : List ColV := []
+  rows : List RowV := []
+  tables : List TableV := []
+  noR : Bool := false
+
+def decodeTable (p : Package) (path : String) : Option TableV :=
+  ((p.part? path).bind (·.xml)).map fun t =>
+    { name := (t.attr? "name".toList).getD [], displayName := (t.attr? "displayName".toList).getD [],
+      ref := (t.attr? "ref".toList).getD [],
+      columns := (((t.kid? "tableColumns").map (·.kids "tableColumn")).getD []).map (fun c => (c.attr? "name".toList).getD []) }
+
+def decodeSheet (p : Package) (path : String) (sst : List Text) (nXf nDxf : Nat) : SheetBody × List String :=
   match (p.part? path).bind (·.xml) with
-  | none => (([], [], []), [s!"sheet part {path} is missing or not well-formed"])
+  | none => ({}, [s!"sheet part {path} is missing or not well-formed"])
   | some root =>
     let rels : List Rel := relsOf p path
     -- child order
-    let kidsNames := (root.children.filter (·.isElem)).map (fun k => str (localName k.name))
+    -- (markup-compatibility wrappers, Part 3, may stand anywhere and are not interpreted)
+    let kidsNames := ((root.children.filter (·.isElem)).map (fun k => str (localName k.name))).filter (· ≠ "AlternateContent")
     let idxs := kidsNames.filterMap (indexIn worksheetOrder)
     let e1 := if nonDecreasing idxs then [] else [s!"{path}: worksheet children out of schema order: {kidsNames}"]
     let e1b := (kidsNames.filter (fun k => (indexIn worksheetOrder k).isNone)).map (fun k => s!"{path}: unknown worksheet child {k}")
     -- rows and cells
     let rows := ((root.kid? "sheetData").map (·.kids "row")).getD []
-    let rowNums := rows.filterMap (fun r => (r.attr? "r".toList).bind natOf)
+    let rowNums := rowNumbers 0 rows
     let e2 := if ascending rowNums then [] else [s!"{path}: rows not strictly ascending"]
     let e2b := if rowNums.all (fun r => 1 ≤ r ∧ r ≤ 1048576) then [] else [s!"{path}: row number outside 1..1048576"]
-    let perRow := rows.map fun r =>
-      let rn := ((r.attr? "r".toList).bind natOf).getD 0
-      let cs := (r.kids "c").map (decodeCell sst)
-      let cols := cs.map (fun c => colOf c.1.ref)
-      let errs := (cs.flatMap (·.2)) ++
+    let perRow : List (List CellV × List String) := (rows.zip rowNums).map fun (r, rn) =>
+      let cs0 : List (CellV × List String) := (r.kids "c").map (decodeCell sst)
+      let cells : List CellV := fillRefs rn 0 (cs0.map (·.1))
+      let cols := cells.map (fun c => colOf c.ref)
+      let errs := (cs0.flatMap (·.2)) ++
         (if ascending cols then [] else [s!"{path}: cells of row {rn} not strictly ascending"]) ++
-        (if cs.all (fun c => rowOf c.1.ref = rn ∧ 1 ≤ colOf c.1.ref ∧ colOf c.1.ref ≤ 16384) then []
+        (if cells.all (fun c => rowOf c.ref = rn ∧ 1 ≤ colOf c.ref ∧ colOf c.ref ≤ 16384) then []
          else [s!"{path}: a cell of row {rn} has a reference outside its row or the grid"]) ++
-        (if cs.all (fun c => c.1.style < nXf) then [] else [s!"{path}: a cell style index of row {rn} is outside cellXfs ({nXf})"])
-      (cs.map (·.1), errs)
-    let cells := perRow.flatMap (·.1)
+        (if cells.all (fun c => c.style < nXf) then [] else [s!"{path}: a cell style index of row {rn} is outside cellXfs ({nXf})"])
+      (cells, errs)
+    let cells := expandShared [] (perRow.flatMap (·.1))
     let e3 := perRow.flatMap (·.2)
+    let rowVs := (rows.zip rowNums).map fun (r, rn) =>
+      { num := rn, height := r.attr? "ht".toList, hidden := boolAttr r "hidden",
+        style := if boolAttr r "customFormat" then (r.attr? "s".toList).bind natOf else none : RowV }
+    -- columns
+    let colVs := (((root.kid? "cols").map (·.kids "col")).getD []).map fun c =>
+      { min := ((c.attr? "min".toList).bind natOf).getD 0, max := ((c.attr? "max".toList).bind natOf).getD 0,
+        width := c.attr? "width".toList, hidden := boolAttr c "hidden",
+        style := ((c.attr? "style".toList).bind natOf).getD 0 : ColV }
+    let e3b := if colVs.all (fun c => 1 ≤ c.min ∧ c.min ≤ c.max ∧ c.max ≤ 16384 ∧ c.style < nXf) then [] else [s!"{path}: a col element is outside the grid, inverted or has a style outside cellXfs"]
     -- merges
     let merges := ((root.kid? "mergeCells").map (·.kids "mergeCell")).getD [] |>.filterMap (·.attr? "ref".toList)
     -- hyperlinks through the relationships part
     let hl := ((root.kid? "hyperlinks").map (·.kids "hyperlink")).getD []
     let linksE := hl.map fun h =>
       let ref := (h.attr? "ref".toList).getD []
+      let tip := h.attr? "tooltip".toList
+      let disp := h.attr? "display".toList
       match h.attr? "r:id".toList with
       | some rid =>
         (match rels.find? (fun (r : Rel) => r.id = str rid) with
-         | some r => (Link.mk ref true r.target.toList, ([] : List String))
-         | none => (Link.mk ref true [], [s!"{path}: hyperlink {str ref} refers to relationship {str rid} which does not exist"]))
-      | none => (Link.mk ref false ((h.attr? "location".toList).getD []), [])
+         | some r => ({ ref := ref, external := true, target := r.target.toList, location := h.attr? "location".toList, tooltip := tip, display := disp : Link }, ([] : List String))
+         | none => ({ ref := ref, external := true, target := [], tooltip := tip, display := disp : Link }, [s!"{path}: hyperlink {str ref} refers to relationship {str rid} which does not exist"]))
+      | none => ({ ref := ref, external := false, target := (h.attr? "location".toList).getD [], tooltip := tip, display := disp : Link }, [])
     -- other r:id users must resolve too
     let ridUsers := (root.children.filter (·.isElem)).filter (fun k => (k.attr? "r:id".toList).isSome)
     let e5 := ridUsers.filterMap fun k =>
@@ -216,7 +333,57 @@ def decodeSheet (p : Package) (path : String) (sst : List Text) (nXf nDxf : Nat)
     -- differential format ids of conditional-formatting rules
     let dxfIds := (root.kids "conditionalFormatting").flatMap (fun cf => (cf.kids "cfRule").filterMap (fun r => (r.attr? "dxfId".toList).bind natOf))
     let e6 := if dxfIds.all (· < nDxf) then [] else [s!"{path}: a dxfId is outside dxfs ({nDxf})"]
-    ((cells, merges, linksE.map (·.1)), e1 ++ e1b ++ e2 ++ e2b ++ e3 ++ linksE.flatMap (·.2) ++ e5 ++ e6)
+    -- tables through the relationships part
+    let tps := ((root.kid? "tableParts").map (·.kids "tablePart")).getD []
+    let tables := tps.filterMap fun tp =>
+      ((tp.attr? "r:id".toList).bind (fun rid => rels.find? (fun (r : Rel) => r.id = str rid))).bind fun r =>
+        decodeTable p (resolveTarget path r.target)
+    let noR := rows.any (fun r => (r.attr? "r".toList).isNone ∨ (r.kids "c").any (fun c => (c.attr? "r".toList).isNone))
+    ({ cells := cells, merges := merges, links := linksE.map (·.1), cols := colVs, rows := rowVs, tables := tables, noR := noR },
+     e1 ++ e1b ++ e2 ++ e2b ++ e3 ++ e3b ++ linksE.flatMap (·.2) ++ e5 ++ e6)
+
+/-! ## styles (§18.8): what a cell's `s` index means, through `cellXfs` -/
+
+structure XfV where
+  numFmtId : Nat
+  formatCode : Option Text        -- from `numFmts` when the id is defined there
+  bold : Bool
+  fillPattern : Text              -- `none` when the fill has no patternFill / no patternType
+  fillFg : Text                   -- `rgb:AARRGGBB`, `theme:n`, `indexed:n` or empty
+  deriving Repr, Inhabited
+
+/-- a CT_BooleanProperty child such as `<b/>`: present means true unless `val` says otherwise -/
+def boolProp (parent : Node) (name : String) : Bool :=
+  match parent.kid? name with
+  | none => false
+  | some e => match e.attr? "val".toList with
+    | none => true
+    | some v => v = ['1'] ∨ v = "true".toList
+
+def colorText (c : Node) : Text :=
+  match c.attr? "rgb".toList, c.attr? "theme".toList, c.attr? "indexed".toList with
+  | some v, _, _ => "rgb:".toList ++ v
+  | none, some t, _ => "theme:".toList ++ t
+  | none, none, some i => "indexed:".toList ++ i
+  | none, none, none => []
+
+def styleTable (sr : Node) : List XfV :=
+  let numFmts := (((sr.kid? "numFmts").map (·.kids "numFmt")).getD []).filterMap fun n =>
+    match (n.attr? "numFmtId".toList).bind natOf, n.attr? "formatCode".toList with
+    | some i, some c => some (i, c)
+    | _, _ => none
+  let fonts := ((sr.kid? "fonts").map (·.kids "font")).getD []
+  let fills := ((sr.kid? "fills").map (·.kids "fill")).getD []
+  let xfs := ((sr.kid? "cellXfs").map (·.kids "xf")).getD []
+  xfs.map fun xf =>
+    let nf := ((xf.attr? "numFmtId".toList).bind natOf).getD 0
+    let fontId := ((xf.attr? "fontId".toList).bind natOf).getD 0
+    let fillId := ((xf.attr? "fillId".toList).bind natOf).getD 0
+    let bold := match fonts[fontId]? with | some f => boolProp f "b" | none => false
+    let pf := (fills[fillId]?).bind (·.kid? "patternFill")
+    let pat := (pf.bind (·.attr? "patternType".toList)).getD "none".toList
+    let fg := ((pf.bind (·.kid? "fgColor")).map colorText).getD []
+    { numFmtId := nf, formatCode := (numFmts.find? (·.1 = nf)).map (·.2), bold := bold, fillPattern := pat, fillFg := fg }
 
 /-! ## the workbook -/
 
@@ -230,6 +397,7 @@ structure BookV where
   sheets : List SheetV
   active : Nat
   names : List NameV
+  xfs : List XfV := []
   deriving Repr, Inhabited
 
 def decode (p : Package) : Option BookV × List String :=
@@ -284,11 +452,11 @@ def decode (p : Package) : Option BookV × List String :=
         let name := (s.attr? "name".toList).getD []
         let state := str ((s.attr? "state".toList).getD "visible".toList)
         match (s.attr? "r:id".toList).bind (fun rid => wrels.find? (fun (r : Rel) => r.id = str rid)) with
-        | none => (SheetV.mk name state [] [] [], [s!"sheet {str name}: r:id does not resolve"])
+        | none => (SheetV.mk name state [] [] [] [] [] [] false, [s!"sheet {str name}: r:id does not resolve"])
         | some r =>
           let path := resolveTarget wbPath r.target
-          let ((cells, merges, links), errs) := decodeSheet p path sst nXf nDxf
-          (SheetV.mk name state cells merges links, errs)
+          let (b, errs) := decodeSheet p path sst nXf nDxf
+          (SheetV.mk name state b.cells b.merges b.links b.cols b.rows b.tables b.noR, errs)
       let active := (((wb.kid? "bookViews").bind (·.kid? "workbookView")).bind (fun v => (v.attr? "activeTab".toList).bind natOf)).getD 0
       let e3 := if sheetEls.isEmpty ∨ active < sheetEls.length then [] else [s!"activeTab {active} is outside the sheet list of {sheetEls.length}"]
       let dn := ((wb.kid? "definedNames").map (·.kids "definedName")).getD []
@@ -296,7 +464,8 @@ def decode (p : Package) : Option BookV × List String :=
       let e4 := namesV.filterMap fun n => match n.scope with
         | some i => if i < sheetEls.length then none else some s!"defined name {str n.name}: localSheetId {i} outside the sheet list"
         | none => none
-      (some { sheets := sheetsE.map (·.1), active := active, names := namesV },
+      (some { sheets := sheetsE.map (·.1), active := active, names := namesV,
+              xfs := (stylesRoot.map styleTable).getD [] },
        e0 ++ e0b ++ e0c ++ e1 ++ e2 ++ sheetsE.flatMap (·.2) ++ e3 ++ e4)
 
 end Umya.Spec.Sml
